@@ -341,8 +341,10 @@ class TreeRoutingTable:
             log.warning("Tried adding a peer with no node id!")
             return False
         known = self.get_peer(peer.node_id)
-        if known and (known.address, known.udp_port) != (peer.address, peer.udp_port):
-            # the node id is claimed from another address: only believe it if the known contact stopped answering
+        if known and known.address != peer.address:
+            # the node id is claimed from another host: only believe it if the known contact stopped answering
+            # (another port of the same host is an address update: its replies are accepted from any port anyway,
+            # and probing would be answered from the new port, which queues the same update again, for ever)
             try:
                 await probe(known)
                 return False
